@@ -12,8 +12,8 @@ from vf.ref.core import REG
 
 from armulator.armv6.arm_exceptions import DataAbortException
 
-LAYOUT = [(0, 0x40), (0x1000, 0x40), (0xFFFFFFC0, 0x40), (0x1040, 0x40)]          # the last one abuts the second: split accesses cross from one device into the next
-BASES = [('mid', 0x1010), ('device-end', 0x1040 - 16), ('top-of-memory', 0xFFFFFFF0), ('zero', 0x0), ('across-devices', 0x1040 - 4)]
+LAYOUT = [(0, 0x40), (0x1000, 0x40), (0xFFFFFFC0, 0x40), (0x1040, 0x40), (0x1060, 0x40)]   # the fifth overlaps the tail of the fourth (first match wins) and has 0x1080.. to itself          # the last one abuts the second: split accesses cross from one device into the next
+BASES = [('mid', 0x1010), ('device-end', 0x1040 - 16), ('top-of-memory', 0xFFFFFFF0), ('zero', 0x0), ('across-devices', 0x1040 - 4), ('overlap', 0x1068)]
 ACCESSORS = ['mem_a', 'mem_u', 'mem_u_unpriv']
 
 
@@ -111,6 +111,8 @@ def cell(acc, rng, cfgov, a, u, hsctlr_a, size, off, basename, base, big, acc_na
     if not bad and ref[0] == 'ok' and iswrite:
         # store-then-load round trip through armulator returns the stored value
         try:
+            if basename == 'overlap':
+                cpu.mem_a_get(0x1090, 1)          # an access to the overlapping device's own part in between: the load below still belongs to the first match
             back = fn[0](addr, size)
             if back != value:
                 bad = {'round_trip': [value, back]}
@@ -220,7 +222,7 @@ PLAN_DUAL = _c02.make_dual_plan('C13')
 
 def run(ctx):
     ctx.rule = ('Direct calls of mem_a_get/set, mem_u_get/set, mem_u_unpriv_get/set for the complete matrix size {1,2,4,8} x address offset 0..7 x base '
-                '{mid-device, just below a device end, just below 2^32 (wrap to 0), 0, across the boundary of two abutting devices} x CPSR.E x SCTLR.A x SCTLR.U (where the architecture version has '
+                '{mid-device, just below a device end, just below 2^32 (wrap to 0), 0, across the boundary of two abutting devices, inside the overlap of two devices with an access to the other one between store and load} x CPSR.E x SCTLR.A x SCTLR.U (where the architecture version has '
                 'the bit) x arch {5,6,7} x privileged/User (+ Hyp mode with HSCTLR.A on the virtualization config) x read/write (and, for the mid-device base, MPU off / privileged-only region / user-read-only region), with random data and '
                 'random surrounding memory in every cell (N repetitions). Oracle: vf/ref/machine.py MemA/MemU (alignment fault / legacy align-down / '
                 'byte-by-byte, BigEndianReverse, exact byte footprint via full memory comparison, DFSR/DFAR on faults) + store-then-load round trip. '
